@@ -982,11 +982,13 @@ func first(a, _ []byte) []byte { return a }
 //@     ghost q0 = len(q)
 //@     invariant stackOK(q) && 0 - 1 <= i && i < n4.childrenLen
 //@     invariant[count] len(q) == q0 + (n4.childrenLen - 1 - i)
+//@     invariant[order] forall(j, 0, 4, implies(j < n4.childrenLen - 1 - i, q[q0 + j].pointer == n4.children[n4.childrenLen - 1 - j].pointer && q[q0 + j].tag == n4.children[n4.childrenLen - 1 - j].tag))
 //@     exit_ensures[every_child_pushed] len(q) == q0 + n4.childrenLen
 //@   loop 3 (i)
 //@     ghost q0 = len(q)
 //@     invariant stackOK(q) && 0 - 1 <= i && i < n16.childrenLen
 //@     invariant[count] len(q) == q0 + (n16.childrenLen - 1 - i)
+//@     invariant[order] forall(j, 0, 16, implies(j < n16.childrenLen - 1 - i, q[q0 + j].pointer == n16.children[n16.childrenLen - 1 - j].pointer && q[q0 + j].tag == n16.children[n16.childrenLen - 1 - j].tag))
 //@     exit_ensures[every_child_pushed] len(q) == q0 + n16.childrenLen
 //@   loop 4 (i)
 //@     ghost q0 = len(q)
@@ -1010,11 +1012,13 @@ func first(a, _ []byte) []byte { return a }
 //@     ghost q0 = len(q)
 //@     invariant stackOK(q) && 0 <= i && i <= n4.childrenLen
 //@     invariant[count] len(q) == q0 + i
+//@     invariant[order] forall(j, 0, 4, implies(j < i, q[q0 + j].pointer == n4.children[j].pointer && q[q0 + j].tag == n4.children[j].tag))
 //@     exit_ensures[every_child_pushed] len(q) == q0 + n4.childrenLen
 //@   loop 3 (i)
 //@     ghost q0 = len(q)
 //@     invariant stackOK(q) && 0 <= i && i <= n16.childrenLen
 //@     invariant[count] len(q) == q0 + i
+//@     invariant[order] forall(j, 0, 16, implies(j < i, q[q0 + j].pointer == n16.children[j].pointer && q[q0 + j].tag == n16.children[j].tag))
 //@     exit_ensures[every_child_pushed] len(q) == q0 + n16.childrenLen
 //@   loop 4 (i)
 //@     ghost q0 = len(q)
